@@ -92,6 +92,7 @@ class Ctx:
             self.violations.append(
                 {
                     "property": self.prop,
+                    "tier": self.tier,
                     "sub": sub,
                     "mechanism": mech,
                     "message": str(msg)[:2000],
